@@ -110,7 +110,8 @@ SignConflict(r) == LET ds == IF r.y # 0 THEN SgnI(r.y) ELSE IF r.mo # 0 THEN Sgn
 \* Duration.round({largest, smallest, inc, mode}, relativeTo: zoned(z, t)); smallest in second..year
 ZRoundRel(z, t, D, largest, smallest, inc, mode) ==
   LET tg == ZAdd(z, t, D, "constrain")
-  IN IF tg.kind # "ok" THEN tg
+  IN IF inc > 1 /\ largest # smallest /\ smallest \in DateUnits THEN ErrRange     \* the option rule of Duration.prototype.round
+     ELSE IF tg.kind # "ok" THEN tg
      \* smallest unit nanosecond with increment 1: nothing is rounded, the duration is only re-measured and re-balanced
      ELSE IF smallest = "nanosecond"
           THEN (IF largest \in TimeUnits THEN Ok(BalanceDur(K9(FromInt(tg.val - t)), largest))
